@@ -126,6 +126,11 @@ fn main() {
                 emit(&mut out, util::guarded(|| taskfam::gen_read(seed, id)));
             }
         }
+        "cloud-cleanup-writer" => {
+            for id in first..first + count {
+                emit(&mut out, util::guarded(|| cloudfam::gen_cleanup_writer(seed, id)));
+            }
+        }
         "cloud-reader" => {
             for id in first..first + count {
                 emit(&mut out, util::guarded(|| cloudfam::gen_reader(seed, id)));
